@@ -23,8 +23,9 @@ func (g *G) Blocked() bool {
 	case strings.HasPrefix(s, "chan receive"), strings.HasPrefix(s, "chan send"), strings.HasPrefix(s, "select"),
 		strings.HasPrefix(s, "sync.Mutex.Lock"), strings.HasPrefix(s, "sync.RWMutex"), strings.HasPrefix(s, "sync.Cond.Wait"),
 		strings.HasPrefix(s, "semacquire"), strings.HasPrefix(s, "sync.WaitGroup.Wait"), strings.HasPrefix(s, "IO wait"),
-		strings.HasPrefix(s, "sleep"), strings.HasPrefix(s, "GC "), strings.HasPrefix(s, "finalizer wait"),
-		strings.HasPrefix(s, "force gc"), strings.HasPrefix(s, "debug call"), strings.HasPrefix(s, "sync.Once"):
+		strings.HasPrefix(s, "sleep"), strings.HasPrefix(s, "finalizer wait"), strings.HasPrefix(s, "sync.Once"),
+		strings.HasPrefix(s, "GC worker"), strings.HasPrefix(s, "GC sweep wait"), strings.HasPrefix(s, "GC scavenge wait"), strings.HasPrefix(s, "force gc"):
+		// NB: "GC assist wait" and "GC assist marking" are transient states of application goroutines: not blocked
 		return true
 	}
 	return false
